@@ -70,6 +70,21 @@ NASTY = [
     "// c\nloop",
 ]
 
+
+def _nested_calls(d, err=False):
+    lines = ["f :: fn g do", "end", "start :: fn do"]
+    lines += ["  " * (i + 1) + "f(fn do" for i in range(d)]
+    lines.append("  " * (d + 1) + ("1 +" if err else "1"))
+    lines += ["  " * (i + 1) + "end)" for i in reversed(range(d))]
+    return "\n".join(lines + ["end"]) + "\n"
+
+
+# calls with function-literal arguments nested in statement position (exponential up to /repo 356c2fa: the statement
+# probe parsed everything twice), and lists that the parser used to walk by recursion per item (debug build)
+NASTY += [_nested_calls(40), _nested_calls(40, True), _nested_calls(12), _nested_calls(12, True),
+          "E :: enum\n" + "".join("  V%d int\n" % i for i in range(3000)) + "end\nstart :: fn do\nend\n",
+          "B :: blob(" + ", ".join("*T%d" % i for i in range(3000)) + ") { }\nstart :: fn do\nend\n"]
+
 _model = {}
 
 
